@@ -344,6 +344,9 @@ fn run(cmd: &str, args: &[String], seed: u64, rep: &mut Report) {
             c14::eco_ports(&mut rep, &mut trace);
             write_ndjson(arg(&args, "--out-trace").unwrap(), &trace);
         }
+        "destinations" => {
+            c14::destinations(seed, &mut rep);
+        }
         "idrules" => {
             let mut trace = Vec::new();
             idrules::replay(&read_ndjson(arg(&args, "--in").unwrap()), seed, arg_u64(&args, "--reps", 2) as usize, &mut rep, &mut trace);
